@@ -274,6 +274,58 @@ PROPS = {
         trusted=["simulated kernel harness/src/simk.rs (twin of the kernel contract K1-K8)",
                  "a10 verif hooks A/B (src/verif.rs)"],
     ),
+    "C08": dict(
+        driver="C08",
+        model="Model/BufPool.v",
+        run_fn="run_bpcase",
+        release_too=True,
+        theorems=["C08_pool_partition_invariant", "C08_ring_slot_free_on_release", "C08_release_returns_own_id",
+                  "C08_tail_wrap_safe", "C08_all_available_when_quiescent", "C08_lost_only_when_abandoned",
+                  "C08_all_available_h11_refuted", "C08_pool_partition_h26_refuted"],
+        rule="one splitmix64 stream per case (VERIF_SEED, index) on the simulated kernel: a real ReadBufPool of 1, 2, 4 or 8 "
+             "buffers of 1..64 bytes (1, 2 and 64 over-weighted) and up to 4 concurrent real pool operations "
+             "(read(pool.get()), recv(pool.get()), multishot_read(pool), multishot_recv(pool)); 8..44 events drawn from "
+             "{start an operation (cancellation winning or losing), kernel selects the buffer at the ring head for an "
+             "in-flight request, stores min(len, buffer size) bytes of a per-completion pattern (len = 0, 1, size, beyond "
+             "size, random) and completes with F_BUFFER | bid << 16 (+ F_MORE for multishot; -ENOBUFS when nothing is "
+             "offered), kernel ends a request with 0 and no buffer, Ring::poll to quiescence, poll of the future/stream "
+             "(obtaining a ReadBuf), truncate / extend_from_slice within the capacity, release(), drop of a ReadBuf (any "
+             "order, repeated releases), drop of a future while in flight or with undelivered completions (one case in "
+             "three), drop of the pool handle (one case in five)}; in two cases of five with >= 2 buffers one block in "
+             "which two real threads release/drop 2..6 owning ReadBufs of the pool under the baton scheduler (preemption "
+             "probability 10..60% at the hook-B points of release: lock of reregister_lock, tail store) while a kernel "
+             "thread picks up to 3 buffers, the executed interleaving replayed step by step on the small-step part of "
+             "the model; case 0 is the regression schedule of H26 (one thread drops the ReadBuf whose entry goes to ring "
+             "slot 0 while the kernel selects twice between the entry write and the tail store); every 500th case (quick; "
+             "every 2000th in the thorough tier) first runs 70 000..72 000 rounds of pick / poll / (release) / drop on a "
+             "pool of two (multishot stream or one single-shot operation per round) so that the 16-bit tail wraps "
+             "(checked by a checksum over every observation of every round); an epilogue ends every request, delivers every "
+             "completion and drops every ReadBuf; non-trivial = at least one buffer delivered and released; distinct by "
+             "the Coq case term",
+        assumptions=["pool_size = 2^k with k <= 15 and buf_size > 0 (hypothesis params_ok; ReadBufPool::new asks for the first, "
+                     "a zero buf_size makes release divide by zero)",
+                     "kernel contract K5 as implemented by the harness: the kernel consumes ring entries in order from its "
+                     "private head, only below the published tail (read at selection time from the last two bytes of "
+                     "ring entry 0, as in the Linux ABI), writes only inside the selected entry's (address, "
+                     "length) and reports the entry's bid in the completion; a request that finds nothing offered fails "
+                     "with -ENOBUFS",
+                     "the theorems are about the code after the repair of H26 (41f16c5: release writes addr/len/bid only); "
+                     "what the code did before (entry write to slot 0 also zeroed the tail): C08_pool_partition_h26_refuted",
+                     "sequentially consistent interleaving at the hook-B scheduling points of ReadBufPool::release (lock, "
+                     "tail store); the Acquire/Release orderings themselves are not verified",
+                     "a ReadBuf is released by one thread at a time (&mut self; enforced by the borrow checker, mirrored in "
+                     "the model by owned.take())",
+                     "all_available_when_quiescent holds under the clause 'no id was picked for an abandoned operation' "
+                     "(lost = []), which C08_lost_only_when_abandoned discharges for every history that drops no future; "
+                     "without the clause the statement is false: known finding H11, witness C08_all_available_h11_refuted",
+                     "Arc reference counting of the shared pool (when the ring is unregistered and freed) is modelled, not "
+                     "proved; operation state lifetimes are C06's subject"],
+        trusted=["simulated kernel harness/src/simk.rs (provided-buffer ring registration, pbuf_pick / pbuf_available "
+                 "16-bit head arithmetic) and the kernel side of pool reads in harness/src/props/c08.rs",
+                 "baton scheduler harness/src/sched.rs (replays are exact: the model reports the scheduling point it "
+                 "expects at every thread step and it is diffed)",
+                 "a10 verif hooks A/B"],
+    ),
     "C10": dict(
         driver="C10",
         model="Model/Composite.v",
